@@ -237,7 +237,7 @@ def run(ctx):
         "(C02.Props.routeK_eq_userspace, kernel_eq_first_match_spec, C01.Props.match_is_first_match, imported and proved in the same lake "
         "build) are tied to the Go code by C02's and C01's own checks, and H2 (installed domain bitmap = MatchDomainBitmap) by C10/C11",
         "the control plane's consumers of the record run from a verbatim copy of their statements (head of handleConn in tcp.go; cache "
-        "probe / RetrieveRoutingResult / error switch / cache update of the UDP ingress task in control_plane.go), regenerated from /repo "
+        "probe / RetrieveRoutingResult / error switch / cache update of the UDP ingress task in control_plane.go) "
         "and the record lookup of the DNS ingress fast path, regenerated from /repo "
         "on every run by consumer_glue (checks/c03.py): the surrounding code (ChooseNatTimeout / DNS controller, handleTCPDnsFastPath, "
         "handlePkt, goroutine dispatch) is not executed; time.Now/Since/timers are virtual (testing/synctest), CLOCK_MONOTONIC is real",
@@ -310,7 +310,7 @@ def run(ctx):
             except OSError:
                 cand = "?"
             ctx.say(f"HARNESS-FAILED the TC programs touch a BPF map the native driver does not register (stream {n}): "
-                    f"{out.strip().splitlines()[-1][:200]}; maps defined in tproxy.c that harness/c/c03_driver.c does not know: {cand}")
+                    f"{([l for l in out.splitlines() if 'bpf_shim:' in l] or ['?'])[-1].strip()[:200]}; maps defined in tproxy.c that harness/c/c03_driver.c does not know: {cand}")
             return 2
         if rc == 4 and cl and cl[-1] == "map-type-changed":
             ctx.say("HARNESS-FAILED conn_state_map / routing_handoff_map / redirect_track is no longer BPF_MAP_TYPE_HASH: the native "
